@@ -985,94 +985,86 @@ theorem init_inv' {cells : List Cell} {o : Nat} (hn : (cells.map (·.obj)).Nodup
 
 /-! ### ids are issued once -/
 
-/-- between `s` and `s'` the counter only grew and every id present in `s'` was present in `s` or
-was issued from the counter in between -/
+/-- what an id designates: the pair (persistent id, object) -/
+def key (c : Cell) : Nat × Nat := (c.cellId, c.obj)
+def keys (s : State) : List (Nat × Nat) := s.cells.map key
+
+/-- between `s` and `s'` the counter only grew and every (id, object) pair present in `s'` was
+present in `s` or carries an id issued from the counter in between -/
 def Fresh (s s' : State) : Prop :=
-  s.maxId ≤ s'.maxId ∧ ∀ id ∈ ids s', id ∈ ids s ∨ (s.maxId ≤ id ∧ id < s'.maxId)
+  s.maxId ≤ s'.maxId ∧ ∀ p ∈ keys s', p ∈ keys s ∨ (s.maxId ≤ p.1 ∧ p.1 < s'.maxId)
 
 theorem Fresh.refl (s : State) : Fresh s s := ⟨Nat.le_refl _, fun _ h => Or.inl h⟩
 
 theorem Fresh.trans {a b c : State} (h1 : Fresh a b) (h2 : Fresh b c) : Fresh a c := by
-  refine ⟨Nat.le_trans h1.1 h2.1, fun id hid => ?_⟩
-  rcases h2.2 id hid with h | ⟨h, h'⟩
-  · rcases h1.2 id h with h | ⟨h, h'⟩
+  refine ⟨Nat.le_trans h1.1 h2.1, fun p hp => ?_⟩
+  rcases h2.2 p hp with h | ⟨h, h'⟩
+  · rcases h1.2 p h with h | ⟨h, h'⟩
     · exact Or.inl h
     · exact Or.inr ⟨h, Nat.lt_of_lt_of_le h' h2.1⟩
   · exact Or.inr ⟨Nat.le_trans h1.1 h, h'⟩
 
-theorem Fresh.of_ids_subset {s s' : State} (hm : s'.maxId = s.maxId) (h : ∀ id ∈ ids s', id ∈ ids s) : Fresh s s' :=
-  ⟨by omega, fun id hid => Or.inl (h id hid)⟩
+theorem Fresh.of_keys_subset {s s' : State} (hm : s'.maxId = s.maxId) (h : ∀ p ∈ keys s', p ∈ keys s) : Fresh s s' :=
+  ⟨by omega, fun p hp => Or.inl (h p hp)⟩
 
-theorem ids_mapIdx {cells : List Cell} {g : Nat → Cell → Cell} (hid : ∀ (i : Nat) (c : Cell), (g i c).cellId = c.cellId) :
-    (cells.mapIdx g).map (·.cellId) = cells.map (·.cellId) :=
+theorem keys_mapIdx {cells : List Cell} {g : Nat → Cell → Cell} (hid : ∀ (i : Nat) (c : Cell), key (g i c) = key c) :
+    (cells.mapIdx g).map key = cells.map key :=
   map_mapIdx_of (fun i a _ => hid i a)
 
+theorem Fresh.of_keys_eq {s s' : State} (hm : s'.maxId = s.maxId) (h : keys s' = keys s) : Fresh s s' :=
+  Fresh.of_keys_subset hm (fun p hp => by rwa [h] at hp)
+
 theorem remesh_fresh (ms : List (Option Mesh)) (s : State) : Fresh s (remesh ms s) := by
-  refine Fresh.of_ids_subset (by rfl) ?_
-  intro id hid
-  have : ids (remesh ms s) = ids s := by
-    unfold ids remesh
-    exact ids_mapIdx (fun i c => by unfold remeshCell; split <;> rfl)
-  rwa [this] at hid
+  refine Fresh.of_keys_eq (by rfl) ?_
+  unfold keys remesh
+  exact keys_mapIdx (fun i c => by unfold remeshCell; split <;> rfl)
 
 theorem updateFaceTypes_fresh (s : State) : Fresh s (updateFaceTypes s) := by
-  refine Fresh.of_ids_subset (by rfl) ?_
-  intro id hid
-  have : ids (updateFaceTypes s) = ids s := by
-    unfold ids updateFaceTypes
-    simp only [List.map_map]
-    congr 1; funext c; simp only [Function.comp]; unfold resetFaceTypes; split <;> rfl
-  rwa [this] at hid
+  refine Fresh.of_keys_eq (by rfl) ?_
+  unfold keys updateFaceTypes
+  simp only [List.map_map]
+  congr 1; funext c; simp only [Function.comp]; unfold resetFaceTypes; split <;> rfl
 
 theorem polarise_fresh (pol : Nat → Nat → Bool) (s : State) : Fresh s (polarise pol s) := by
-  refine Fresh.of_ids_subset (by rfl) ?_
-  intro id hid
-  have : ids (polarise pol s) = ids s := by
-    unfold ids polarise
-    exact ids_mapIdx (fun i c => by unfold polariseCell; split <;> rfl)
-  rwa [this] at hid
+  refine Fresh.of_keys_eq (by rfl) ?_
+  unfold keys polarise
+  exact keys_mapIdx (fun i c => by unfold polariseCell; split <;> rfl)
 
-theorem applyContact_ids (code : Code) (cells : List Cell) (ct : Contact) :
-    (applyContact code cells ct).map (·.cellId) = cells.map (·.cellId) := by
-  have hset : ∀ (l : List Cell) (c k : Nat) (v : Nat × Nat), (setCoupled l c k v).map (·.cellId) = l.map (·.cellId) := by
+theorem applyContact_keys (code : Code) (cells : List Cell) (ct : Contact) :
+    (applyContact code cells ct).map key = cells.map key := by
+  have hset : ∀ (l : List Cell) (c k : Nat) (v : Nat × Nat), (setCoupled l c k v).map key = l.map key := by
     intro l c k v
     rw [setCoupled_eq]
-    exact ids_mapIdx (fun j cell => by split <;> rfl)
+    exact keys_mapIdx (fun j cell => by split <;> rfl)
   unfold applyContact
   repeat' split
   all_goals first | rfl | (rw [hset, hset])
 
-theorem foldl_applyContact_ids (code : Code) (cs : List Contact) (l : List Cell) :
-    (cs.foldl (applyContact code) l).map (·.cellId) = l.map (·.cellId) := by
+theorem foldl_applyContact_keys (code : Code) (cs : List Contact) (l : List Cell) :
+    (cs.foldl (applyContact code) l).map key = l.map key := by
   induction cs generalizing l with
   | nil => rfl
-  | cons ct rest ih => simp only [List.foldl_cons]; rw [ih, applyContact_ids]
+  | cons ct rest ih => simp only [List.foldl_cons]; rw [ih, applyContact_keys]
 
 theorem contactPhase_fresh (code : Code) (cs : List Contact) (s : State) : Fresh s (contactPhase code cs s) := by
-  refine Fresh.of_ids_subset (by rfl) ?_
-  intro id hid
-  have h2 : ids (contactPhase code cs s) = ids s := by
-    unfold ids contactPhase
-    simp only [foldl_applyContact_ids, List.map_map]
-    congr 1
-  rwa [h2] at hid
+  refine Fresh.of_keys_eq (by rfl) ?_
+  unfold keys contactPhase
+  simp only [foldl_applyContact_keys, List.map_map]
+  congr 1
 
 theorem eraseSmall_fresh (rm : List Nat) (s : State) : Fresh s (eraseSmall rm s) := by
-  refine Fresh.of_ids_subset (by rfl) ?_
-  intro id hid
-  exact ((removeIdx_sublist s.cells rm).map (·.cellId)).subset hid
+  refine Fresh.of_keys_subset (by rfl) ?_
+  intro p hp
+  exact ((removeIdx_sublist s.cells rm).map key).subset hp
 
 theorem renumber_fresh (s : State) : Fresh s (renumber s) := by
-  refine Fresh.of_ids_subset (by rfl) ?_
-  intro id hid
-  have : ids (renumber s) = ids s := by
-    unfold ids renumber renumberCells
-    exact ids_mapIdx (fun _ _ => rfl)
-  rwa [this] at hid
+  refine Fresh.of_keys_eq (by rfl) ?_
+  unfold keys renumber renumberCells
+  exact keys_mapIdx (fun _ _ => rfl)
 
-/-- ids during a division round: old ones, or the next numbers of the counter -/
+/-- (id, object) pairs during a division round: old ones, or ids taken from the counter -/
 def DFresh (cells : List Cell) (maxId : Nat) (st : DState) : Prop :=
-  maxId ≤ st.maxId ∧ ∀ id ∈ st.cells.map (·.cellId), id ∈ cells.map (·.cellId) ∨ (maxId ≤ id ∧ id < st.maxId)
+  maxId ≤ st.maxId ∧ ∀ p ∈ st.cells.map key, p ∈ cells.map key ∨ (maxId ≤ p.1 ∧ p.1 < st.maxId)
 
 theorem divOne_fresh {cells : List Cell} {maxId : Nat} {st : DState} (h : DFresh cells maxId st) (i : Nat) (d : Daughters) :
     DFresh cells maxId (divOne critAsModelled st i d) := by
@@ -1081,15 +1073,15 @@ theorem divOne_fresh {cells : List Cell} {maxId : Nat} {st : DState} (h : DFresh
   | some mother =>
     rw [divOne_eq hm]
     refine ⟨by have := h.1; show maxId ≤ st.maxId + 2; omega, ?_⟩
-    intro id hid
-    simp only [List.map_append, List.mem_append, List.map_cons, List.map_nil, List.mem_cons, List.not_mem_nil, or_false] at hid
-    rcases hid with hid | rfl | rfl
-    · have : (st.cells.modify i clearCell).map (·.cellId) = st.cells.map (·.cellId) := by
-        rw [modify_eq_mapIdx]; exact ids_mapIdx (fun j c => by split <;> rfl)
-      rw [this] at hid
-      rcases h.2 id hid with h' | ⟨h1, h2⟩
+    intro p hp
+    simp only [List.map_append, List.mem_append, List.map_cons, List.map_nil, List.mem_cons, List.not_mem_nil, or_false] at hp
+    rcases hp with hp | rfl | rfl
+    · have : (st.cells.modify i clearCell).map key = st.cells.map key := by
+        rw [modify_eq_mapIdx]; exact keys_mapIdx (fun j c => by split <;> rfl)
+      rw [this] at hp
+      rcases h.2 p hp with h' | ⟨h1, h2⟩
       · exact Or.inl h'
-      · exact Or.inr ⟨h1, by show id < st.maxId + 2; omega⟩
+      · exact Or.inr ⟨h1, by show p.1 < st.maxId + 2; omega⟩
     · exact Or.inr ⟨h.1, by show st.maxId < st.maxId + 2; omega⟩
     · exact Or.inr ⟨by have := h.1; show maxId ≤ st.maxId + 1; omega, by show st.maxId + 1 < st.maxId + 2; omega⟩
 
@@ -1101,25 +1093,25 @@ theorem divFold_fresh {cells : List Cell} {maxId : Nat} (ev : List (Nat × Daugh
 
 theorem divisionRound_fresh {code : Code} (hc : code.crit = critAsModelled) (hp : code.post = postAsModelled)
     (ev : DivEv) (s : State) : Fresh s (divisionRound code ev s) := by
-  have h0 : DFresh s.cells s.maxId (dstate0 s) := ⟨Nat.le_refl _, fun id hid => Or.inl hid⟩
+  have h0 : DFresh s.cells s.maxId (dstate0 s) := ⟨Nat.le_refl _, fun p hp => Or.inl hp⟩
   have h1 := divFold_fresh ev h0
   unfold divisionRound
   rw [hc, hp]
   dsimp only
   split
   · simp only [postAsModelled, List.foldl, runDivPost]
-    refine ⟨h1.1, fun id hid => ?_⟩
+    refine ⟨h1.1, fun p hp => ?_⟩
     apply h1.2
     have : (renumberCells (removeIdx (divFold critAsModelled (dstate0 s) ev).cells
-        (sortAsc (divFold critAsModelled (dstate0 s) ev).toDelete))).map (·.cellId)
+        (sortAsc (divFold critAsModelled (dstate0 s) ev).toDelete))).map key
         = (removeIdx (divFold critAsModelled (dstate0 s) ev).cells
-        (sortAsc (divFold critAsModelled (dstate0 s) ev).toDelete)).map (·.cellId) := by
-      unfold renumberCells; exact ids_mapIdx (fun _ _ => rfl)
-    unfold ids at hid
-    simp only at hid
-    rw [this] at hid
-    exact ((removeIdx_sublist _ _).map Cell.cellId).subset hid
-  · exact ⟨h1.1, fun id hid => h1.2 id hid⟩
+        (sortAsc (divFold critAsModelled (dstate0 s) ev).toDelete)).map key := by
+      unfold renumberCells; exact keys_mapIdx (fun _ _ => rfl)
+    unfold keys at hp
+    simp only at hp
+    rw [this] at hp
+    exact ((removeIdx_sublist _ _).map key).subset hp
+  · exact ⟨h1.1, fun p hp => h1.2 p hp⟩
 
 theorem iteration_fresh {code : Code} (hm : AsModelled code) (e : IterEv) (s : State) : Fresh s (iteration code e s) := by
   have h : Fresh s (afterRemoval code e s) := by
@@ -1143,6 +1135,13 @@ theorem run_fresh {code : Code} (hm : AsModelled code) (evs : List IterEv) (s : 
   induction evs generalizing s with
   | nil => exact Fresh.refl s
   | cons e es ih => exact Fresh.trans (iteration_fresh hm e s) (ih _)
+
+theorem mem_keys {s : State} {p : Nat × Nat} : p ∈ keys s ↔ ∃ c ∈ s.cells, c.cellId = p.1 ∧ c.obj = p.2 := by
+  unfold keys key
+  rw [List.mem_map]
+  constructor
+  · rintro ⟨c, hc, rfl⟩; exact ⟨c, hc, rfl, rfl⟩
+  · rintro ⟨c, hc, h1, h2⟩; exact ⟨c, hc, by rw [h1, h2]⟩
 
 /-! ### the executable checkers decide the invariant -/
 
